@@ -73,6 +73,10 @@ type Step struct {
 	T   string        `json:"t,omitempty"`
 	Tok []interface{} `json:"tok,omitempty"`
 	Ret bool          `json:"ret,omitempty"`
+	// AtMs: do this step no earlier than AtMs ms after the run started (staggered-deadline family:
+	// a held SendFunc released late, a reply placed between two targets' deadlines). Only the
+	// imposed schedule depends on it; verdicts come from the recorded clock readings.
+	AtMs int `json:"at_ms,omitempty"`
 }
 
 type Scenario struct {
@@ -89,6 +93,7 @@ type Scenario struct {
 	Order   []string       `json:"order"`    // commands in Enqueue order
 	EnqUs   map[string]int `json:"enq_us"`   // delay before Enqueue
 	DelayUs map[string]int `json:"delay_us"` // token -> delay after SendBegin
+	HoldUs  map[string]int `json:"hold_us"`  // "c/t" -> time SendFunc takes to return (slow send)
 }
 
 const stepWait = 3 * time.Second
@@ -232,6 +237,9 @@ func (r *run) sendFunc(cmd controlcommands.MesosCommand, receiver controlcommand
 		for _, m := range r.sc.Msgs[k] {
 			r.inject(m, time.Duration(r.sc.DelayUs[m.tokStr()])*time.Microsecond)
 		}
+		if h := r.sc.HoldUs[k]; h > 0 {
+			time.Sleep(time.Duration(h) * time.Microsecond)
+		}
 	} else if r.gated[k] {
 		select {
 		case <-r.gate[k]:
@@ -239,12 +247,12 @@ func (r *run) sendFunc(cmd controlcommands.MesosCommand, receiver controlcommand
 		}
 	}
 	fails := b == "sendfail" || b == "failreply"
+	r.emit("SendEnd", "c", c, "tgt", t, "b", b, "ok", !fails)
 	r.mu.Lock()
 	if !fails {
 		r.lastOk = time.Now()
 	}
 	r.mu.Unlock()
-	r.emit("SendEnd", "c", c, "tgt", t, "b", b, "ok", !fails)
 	if o := r.once[k+"d"]; o != nil {
 		o.Do(func() { close(r.done[k]) })
 	}
@@ -474,6 +482,11 @@ func wait(ch chan struct{}, d time.Duration) bool {
 func (r *run) sched() {
 	for _, st := range r.sc.Steps {
 		k := key(st.C, st.T)
+		if st.AtMs > 0 {
+			if d := time.Until(r.start.Add(time.Duration(st.AtMs) * time.Millisecond)); d > 0 {
+				time.Sleep(d)
+			}
+		}
 		switch st.A {
 		case "Enqueue":
 			r.enqueue(st.C)
